@@ -235,6 +235,150 @@ inline void async_programs(const vf::opts &o, vf::report &R, uint64_t programs) 
 }
 
 // ---------------------------------------------------------------------------------------------
+// Bound parties and waiters that only the coroutine frame keeps alive. The library resolves the bound future (releasing blocked
+// threads and callback awaiters) BEFORE it destroys the finished frame; a program may therefore let the frame own the party:
+//   FO_CALLBACK      a heap job object embeds a call_fn_future_awaiter (future + completion callback); the frame holds the last
+//                    shared_ptr to the job. The callback must run exactly once, with the result, while the job is alive.
+//   FO_BOUND_FUTURE  the job embeds the future the coroutine is bound to (start(promise)); when the frame lets the job go the
+//                    future must already hold the result.
+//   FO_THREAD_WAITER an argument of the coroutine owns a thread that is blocked in sync() on the coroutine's own result and joins it on
+//                    destruction: the waiter must have been released by the time the frame is torn down (otherwise: deadlock).
+enum { FO_CALLBACK = 0, FO_BOUND_FUTURE, FO_THREAD_WAITER, FO_NKINDS };
+inline const char *fo_name(int k) { static const char *n[] = {"job with callback awaiter owned by the frame", "job with the bound future owned by the frame", "frame-owned thread blocked on the own result"}; return n[k]; }
+
+struct fo_out {
+    outcome seen, at_destruction;
+    std::atomic<int> cb_calls{0}, cb_on_dead_job{0}, job_destroyed{0}, pending_at_destruction{0}, waiter_entered{0}, waiter_released{0};
+};
+template <typename T> struct fo_sink {
+    fo_out *out = nullptr;
+    uint64_t canary = 0xC0FFEE11;
+    cocls::suspend_point<void> on_done(cocls::future<T> &f) noexcept {
+        if (canary != 0xC0FFEE11) { out->cb_on_dead_job.fetch_add(1); return {}; }
+        out->seen = read_future(f, nullptr, 0);
+        out->cb_calls.fetch_add(1);
+        return {};
+    }
+};
+template <typename T> struct fo_job {
+    fo_sink<T> sink;
+    cocls::call_fn_future_awaiter<&fo_sink<T>::on_done> aw{sink};
+    cocls::future<T> result;
+    bool result_bound = false;
+    tracked guard{55};
+    explicit fo_job(fo_out *o) { sink.out = o; }
+    ~fo_job() {
+        if (result_bound) {
+            if (!result.ready()) { sink.out->pending_at_destruction.fetch_add(1); result.sync(); } // sync(): a pending future must not be destroyed; a lost result blocks here (watchdog)
+            sink.out->at_destruction = read_future(result, nullptr, 0);
+        }
+        sink.canary = 0;
+        sink.out->job_destroyed.fetch_add(1);
+    }
+};
+struct fo_joining_thread { // passed as a coroutine ARGUMENT: arguments are destroyed with the frame (locals already at the end of the body)
+    std::thread t;
+    fo_joining_thread() = default;
+    fo_joining_thread(fo_joining_thread &&) = default;
+    ~fo_joining_thread() { if (t.joinable()) t.join(); }
+};
+
+template <typename T> cocls::async<T> fo_body(c4_ctx &X, std::shared_ptr<fo_job<T>> self, fo_out *out, cocls::future<T> *own_result, int kind, fo_joining_thread waiter) {
+    X.body_runs[0].fetch_add(1, std::memory_order_relaxed);
+    tracked local(8);
+    if (kind == FO_THREAD_WAITER) { // the thread is joined when the frame (its arguments) is destroyed
+        waiter.t = std::thread([out, own_result] { out->waiter_entered.store(1, std::memory_order_release); own_result->sync(); out->waiter_released.store(1, std::memory_order_release); });
+        while (!out->waiter_entered.load(std::memory_order_acquire)) std::this_thread::yield();
+        for (int i = 0; i < 30000; i++) vf::cpu_relax(); // let it really block (a late waiter is a legal but less interesting case)
+    }
+    if (X.completion >= AC_SUSPEND_VALUE) { bool hv = co_await X.gate.has_value(); (void)hv; }
+    if (!local.ok() || (self && !self->guard.ok())) throw vf::test_exc{-77};
+    X.body_done[0].fetch_add(1, std::memory_order_relaxed);
+    if (X.throw_level == 0) throw vf::test_exc{0};
+    if constexpr (std::is_void_v<T>) co_return; else co_return c4_value<T>(X.base);
+}
+
+template <typename T>
+void frame_owned_program(const vf::opts &o, vf::report &R, uint64_t pn, vf::rng &r, int kind, int completion) {
+    auto Xp = std::make_unique<c4_ctx>();
+    c4_ctx &X = *Xp;
+    X.depth = 1; X.completion = completion;
+    bool throws = completion == AC_THROW || completion == AC_SUSPEND_THROW, suspends = completion >= AC_SUSPEND_VALUE;
+    X.throw_level = throws ? 0 : -1;
+    bool other_thread = suspends && r.chance(1, 2);
+    std::string desc = std::string(ftype_name<T>()) + " / " + fo_name(kind) + " / " + ac_name(completion) + (suspends ? (other_thread ? " / finished by another thread" : " / finished by the same thread") : "");
+    vf::set_crash_ctx(R.prop.c_str(), "frame_owned_parties", o.seed, pn, desc.c_str());
+    long live0 = tracked::live.load(), bad0 = tracked::bad.load();
+    auto outp = std::make_unique<fo_out>();
+    fo_out &out = *outp;
+    std::string err;
+    outcome fut_seen; fut_seen.state = PS_PENDING;
+    {
+        std::unique_ptr<cocls::future<T>> fut;
+        if (kind == FO_THREAD_WAITER) {
+            fut = std::make_unique<cocls::future<T>>();
+            if (!fo_body<T>(X, nullptr, &out, fut.get(), kind, fo_joining_thread()).start(fut->get_promise())) err = "start(promise) reported false on an unclaimed promise";
+        } else {
+            auto job = std::make_shared<fo_job<T>>(&out);
+            fo_job<T> *raw = job.get();
+            if (kind == FO_CALLBACK) raw->aw << [&]() -> cocls::future<T> { return fo_body<T>(X, job, &out, nullptr, kind, fo_joining_thread()).start(); };
+            else { raw->result_bound = true; if (!fo_body<T>(X, job, &out, nullptr, kind, fo_joining_thread()).start(raw->result.get_promise())) err = "start(promise) reported false on an unclaimed promise"; }
+            job.reset(); // from here on only the frame (if it still exists) keeps the job alive
+            if (suspends && out.job_destroyed.load() != 0 && err.empty()) err = "job destroyed although the coroutine that owns it is still suspended";
+        }
+        if (suspends) {
+            if (other_thread) { std::thread h([&X] { for (int i = 0; i < 200; i++) vf::cpu_relax(); X.open_gate(); }); h.join(); }
+            else X.open_gate();
+        }
+        if (fut) { fut->sync(); fut_seen = read_future(*fut, nullptr, 0); }
+    }
+    R.cases++;
+    outcome expect;
+    if (throws) { expect.state = PS_EXC; expect.code = 0; } else { expect.state = PS_VALUE; expect.val = std::is_void_v<T> ? 0 : X.base; }
+    if (err.empty() && X.body_runs[0].load() != 1) err = "body ran " + std::to_string(X.body_runs[0].load()) + " times";
+    if (err.empty() && kind != FO_THREAD_WAITER && out.job_destroyed.load() != 1) err = "job object owned by the frame destroyed " + std::to_string(out.job_destroyed.load()) + " times";
+    if (err.empty() && kind == FO_CALLBACK) {
+        if (out.cb_on_dead_job.load()) err = "completion callback invoked after the frame had already released (destroyed) the object it lives in";
+        else if (out.cb_calls.load() != 1) err = "completion callback ran " + std::to_string(out.cb_calls.load()) + " times";
+        else if (!(out.seen == expect)) err = "callback received " + out.seen.str() + ", the body produced " + expect.str();
+    }
+    if (err.empty() && kind == FO_BOUND_FUTURE) {
+        if (out.pending_at_destruction.load()) err = "bound future still pending when the finished frame released it (frame destroyed before the result was delivered)";
+        else if (!(out.at_destruction == expect)) err = "bound future held " + out.at_destruction.str() + ", the body produced " + expect.str();
+    }
+    if (err.empty() && kind == FO_THREAD_WAITER) {
+        if (!out.waiter_released.load()) err = "thread blocked on the result was not released";
+        else if (!(fut_seen == expect)) err = "bound party received " + fut_seen.str() + ", the body produced " + expect.str();
+    }
+    if (err.empty() && tracked::live.load() != live0) err = "frame contents / owned job not destroyed exactly once: live delta " + std::to_string(tracked::live.load() - live0);
+    if (err.empty() && tracked::bad.load() != bad0) err = "frame local or job destroyed twice or used after destruction";
+    if (!err.empty()) {
+        R.violation("monitor:async|frame_owned_parties", err, vf::jobj().kv("scenario", "frame_owned_parties").kv("seed", (unsigned long long)o.seed).kv("program", (unsigned long long)pn).kv("desc", desc)
+                        .kv("expected", expect.str()).kv("callback_calls", out.cb_calls.load()).kv("job_destroyed", out.job_destroyed.load()).str());
+        (void)Xp.release(); (void)outp.release();
+        return;
+    }
+    R.nontrivial_cases++;
+    R.sig(desc);
+    R.cls(std::string("party: ") + fo_name(kind)); R.cls(std::string("completion: ") + ac_name(completion));
+    if (R.samples.size() < 4) R.sample(vf::jobj().kv("program", desc).kv("observed", kind == FO_CALLBACK ? out.seen.str() : kind == FO_BOUND_FUTURE ? out.at_destruction.str() : fut_seen.str()).str());
+}
+
+inline void frame_owned_parties(const vf::opts &o, vf::report &R, uint64_t programs) {
+    vf::rng master(vf::mix(o.seed, 0x204));
+    for (uint64_t pn = 0; pn < programs && R.nviol() < 5; pn++) {
+        vf::rng r(master.next());
+        int kind = (int)(pn % FO_NKINDS), completion = (int)((pn / FO_NKINDS) % 4);
+        switch ((pn / (FO_NKINDS * 4)) % 4) {
+        case 0: frame_owned_program<void>(o, R, pn, r, kind, completion); break;
+        case 1: frame_owned_program<int>(o, R, pn, r, kind, completion); break;
+        case 2: frame_owned_program<tracked_mo>(o, R, pn, r, kind, completion); break;
+        default: frame_owned_program<tracked>(o, R, pn, r, kind, completion); break;
+        }
+    }
+}
+
+// ---------------------------------------------------------------------------------------------
 // start(promise) racing with another thread that invokes the same promise: exactly one of them claims it. Either the coroutine is
 // started (body runs once, its result reaches the future, the competing call reports false) or it stays unstarted (start reports
 // false, the body never runs, the future holds the competitor's value); the frame and its arguments are destroyed exactly once.
